@@ -575,6 +575,7 @@ def _run_case(case: dict[str, Any], scratch: str, want_trace: bool) -> dict[str,
     nontrivial_points: set[str] = set()
     hist_log: list[Any] = []
 
+    inproc: list[tuple[Any, bytes, dict[str, bytes]]] = []
     for idx, inv in enumerate(case["history"]):
         form = inv["form"]
         pred = predict(model, inv, M)
@@ -582,6 +583,7 @@ def _run_case(case: dict[str, Any], scratch: str, want_trace: bool) -> dict[str,
         stdin = j2b(inv.get("stdin")) or b""
         res = simproc.run_process(ip, make_fn(inv), stdin, cwd=root, uid_seed=inv.get("uid_seed", 0))
         after = tree_files(root)
+        inproc.append((res.exit, res.stdout, after))
         counters["invocations"] += 1
         counters["forms"][form] = counters["forms"].get(form, 0) + 1
         counters["fs_ops"] += len(ip.log)
@@ -663,6 +665,14 @@ def _run_case(case: dict[str, Any], scratch: str, want_trace: bool) -> dict[str,
                 break
         M = dict(after)  # the tree is the truth for the next invocation (it equals the prediction)
 
+    # ---- validation of the in-process stand-in against the real CLI in real subprocesses
+    sample_mod = 6 if case.get("tier") == "thorough" else 40
+    if not violations and case["run_seed"] % sample_mod == 0 and all("argv" in inv for inv in case["history"]):
+        bad = _real_cli_history(case, scratch, inproc)
+        counters["real_subprocess_invocations"] = len(case["history"])
+        if bad:
+            return {"verdict": "harness_error", "trace": "in-process main(argv) and the real CLI subprocess disagree: " + repr(bad), "digest": "", "counters": counters}
+
     res_d: dict[str, Any] = {
         "verdict": "violation" if violations else "ok",
         "fingerprint": violations[0]["fingerprint"] if violations else "",
@@ -682,6 +692,41 @@ def _run_case(case: dict[str, Any], scratch: str, want_trace: bool) -> dict[str,
 
 
 SET_KEYS = ("points", "chunk_classes", "forms", "nontrivial_points")
+
+
+def _real_cli_history(case: dict[str, Any], scratch: str, inproc: list[tuple[Any, bytes, dict[str, bytes]]]) -> dict[str, Any] | None:
+    import subprocess
+    import sys
+
+    from .core import repo_src
+
+    real = os.path.join(scratch, "real")
+    os.makedirs(real)
+    simproc.build_tree(real, {rel: {"f": (j2b(ent["f"]) or b"")} for rel, ent in case["tree"].items()})
+    env = dict(os.environ, PYTHONPATH=repo_src(), PYTHONUTF8="1", PYTHONDONTWRITEBYTECODE="1")
+    rng = random.Random(case["run_seed"])
+    for idx, inv in enumerate(case["history"]):
+        stdin = j2b(inv.get("stdin")) or b""
+        p = subprocess.Popen([sys.executable, "-m", "flowmark.cli", *inv["argv"]], cwd=real, env=env, stdin=subprocess.PIPE, stdout=subprocess.PIPE, stderr=subprocess.PIPE)
+        assert p.stdin is not None
+        pos = 0
+        try:
+            while pos < len(stdin):
+                n = rng.choice([1, 3, 17, 256, 4096, len(stdin)])
+                p.stdin.write(stdin[pos : pos + n])
+                p.stdin.flush()
+                pos += n
+            p.stdin.close()
+        except BrokenPipeError:
+            pass
+        out = p.stdout.read() if p.stdout else b""
+        err = p.stderr.read() if p.stderr else b""
+        rc = p.wait(timeout=120)
+        tree = tree_files(real)
+        e_exit, e_out, e_tree = inproc[idx]
+        if rc != e_exit or out != e_out or tree != e_tree:
+            return {"invocation": idx, "argv": inv["argv"], "rc": [rc, e_exit], "stdout_equal": out == e_out, "tree_diff": sorted(k for k in set(tree) | set(e_tree) if tree.get(k) != e_tree.get(k))[:5], "stderr": err[-300:].decode("utf-8", "replace")}
+    return None
 
 
 def sample_of(case: dict[str, Any], res: dict[str, Any]) -> dict[str, Any]:
@@ -706,6 +751,7 @@ def evidence_extras(counters: dict[str, Any], sets: dict[str, set[str]], runs: d
         "auto_twin_runs": counters.get("twin_runs", 0),
         "discriminating_invocations": counters.get("discriminating_invocations", 0),
         "logical_time_fs_operations": counters.get("fs_ops", 0),
+        "invocations_cross_checked_against_real_cli_subprocess": counters.get("real_subprocess_invocations", 0),
     }
 
 
